@@ -580,6 +580,17 @@ class UserSecurityModel(
             raise SnmpError("Discovery data did not contain valid data")
         unknown_engine_ids = unknown_engine_id_var.value.pythonize()
 
+        if not (
+            isinstance(security.authoritative_engine_id, bytes)
+            and isinstance(security.authoritative_engine_boots, int)
+            and isinstance(security.authoritative_engine_time, int)
+        ):
+            # A damaged response must not be remembered. It would break every
+            # following request of this client.
+            raise SnmpError(
+                "Invalid discovery response (unusable security parameters)"
+            )
+
         out = DiscoData(
             authoritative_engine_id=security.authoritative_engine_id,
             authoritative_engine_boots=security.authoritative_engine_boots,
